@@ -146,6 +146,29 @@ def reader_shape(ctx, rule):
         ctx.check(bool(bl) and all(error_returned(body, b) for b in bl), rule, fn, "%s:returned" % var,
                   "Error::%s is constructed and returned for a %s" % (var, why))
 
+    # the reader rejects nothing else: every error construction is one of the four kinds, each
+    # under its own condition (a narrower accepted domain than the writer's would break round trips)
+    loops = dict(body.loops())
+    in_loop = set()
+    for h, bl in loops.items():
+        in_loop |= bl
+    allv = {}
+    for bi, si, s, is_term in body.locations():
+        if not is_term and s["k"] == "assign" and s["rv"]["k"] == "agg" and s["rv"].get("adt", "").endswith("errors::Error"):
+            allv.setdefault(s["rv"]["variant"], []).append((bi, si))
+    ctx.check(set(allv) == {"VlqOverflow", "VlqLeftover", "VlqNoValues", "InvalidBase64"}, rule, fn, "rejections:kinds",
+              "the reader constructs exactly the error kinds InvalidBase64, VlqOverflow, VlqLeftover, VlqNoValues", detail=str(sorted(allv)))
+    for bi, si in allv.get("VlqOverflow", []):
+        used = [q.shape(body.expr_of_call(t), roles) for b2, t in body.calls() if b2 == bi or body.blocks[bi]["term"] is t]
+        t = body.blocks[bi]["term"]
+        ok = t["k"] == "call" and q.nice(t.get("callee")) in ("Option::ok_or", "Option::ok_or_else") and "checked_shl(" in q.shape(body.expr_of_call(t), roles)
+        ctx.check(ok, rule, fn, "VlqOverflow:only-from-checked_shl", "VlqOverflow is produced only by the failing checked shift (values of up to 13 digits are accepted)", ctx.site(body, bi, si))
+    for bi, si in allv.get("VlqLeftover", []) + allv.get("VlqNoValues", []):
+        ctx.check(bi not in in_loop, rule, fn, "end-of-input-errors", "leftover / no-values are decided after the whole segment was read", ctx.site(body, bi, si))
+    for bi, si in allv.get("InvalidBase64", []):
+        ctx.check(has_fact(body, bi, roles, ("Lt", "enc", "0"), ("Le", "enc", "-1")), rule, fn, "InvalidBase64:only-negative", "InvalidBase64 is produced only for the negative sentinel", ctx.site(body, bi, si))
+    err_blocks = set(result_blocks(body, "Err")) | set(residual_blocks(body))
+    ctx.check(len(err_blocks) == 4, rule, fn, "rejections:count", "the reader has exactly four error exits (foreign byte, shift overflow, leftover, no values)", detail=str(sorted(err_blocks)))
     # (d) sentinel discipline
     sentinel(ctx, rule, body, roles, enc)
 
